@@ -14,7 +14,7 @@ Local Open Scope bool_scope.
 Inductive con :=
   (* inputs of a run *)
   | IPredG (k : nat) | IPredS (k : nat) | IY (k : nat) | IR | IOutG | IOutS | IRng
-  | IPy0 | IPm0 | IEmpty
+  | IPy0 | IPm0 | IEmpty | IGarbageR
   (* measurement model *)
   | FH | FInn | FCustomLik
   (* KF *)
@@ -71,71 +71,68 @@ Record obs := mkObs { o_g : tm; o_s : tm; o_log : list site; o_lik : bool * tm; 
 Definition opt_pair (o : option tm) : bool * tm :=
   match o with Some l => (true, l) | None => (false, leaf IEmpty) end.
 
+(* run configuration: skip_ of the driven correction, skip_ of the correction wrapped by
+   GPF, whether a failing getNoiseCovarianceMatrix returns an empty matrix next to its false
+   flag, whether one object is passed as predicted and corrected belief *)
+Record cfg := mkCfg { c_skip : bool; c_iskip : bool; c_emptyR : bool; c_alias : bool }.
+Definition cfg0 := mkCfg false false false false.
+
+Definition sinj (c : cfg) (p : pattern) (k : nat) : mmodel tm tm tm tm tm :=
+  if c_emptyR c then inject_g (leaf IGarbageR) p (smm k) else inject p (smm k).
+
 (* a Gaussian correction object driven through a sequence of patterns; the
-   output object of step k is the in-out argument of step k+1 *)
+   output object of step k is the in-out argument of step k+1 (aliased: the
+   predicted object itself) *)
 Section GaussRun.
 Variable GS : Type.
 Variable step : pattern -> nat -> tm -> tm -> GS -> result tm GS.
 Variable getlik : pattern -> nat -> GS -> option tm * list site.
 
-Fixpoint gauss_run (pats : list (list bool)) (k : nat) (out : tm) (st : GS) : list obs :=
+Fixpoint gauss_run_cfg (c : cfg) (pats : list (list bool)) (k : nat) (out : tm) (st : GS) : list obs :=
   match pats with
   | [] => []
   | b :: rest =>
     let p := pat_of b in
-    let r := correct_wrapper false (step p k) (leaf (IPredG k)) out st in
+    let pred := leaf (IPredG k) in
+    let r := correct_wrapper (c_skip c) (step p k) pred (if c_alias c then pred else out) st in
     let '(lk, ll) := getlik p k (r_st r) in
-    mkObs (r_out r) (leaf IEmpty) (r_log r) (opt_pair lk) ll :: gauss_run rest (S k) (r_out r) (r_st r)
+    mkObs (r_out r) (leaf IEmpty) (r_log r) (opt_pair lk) ll :: gauss_run_cfg c rest (S k) (r_out r) (r_st r)
   end.
+Definition gauss_run := gauss_run_cfg cfg0.
 End GaussRun.
 
 Definition kf_st0 : kf_state tm tm := mkKfSt None (leaf IPy0).
 Definition ukf_st0 : ukf_state tm tm := mkUkfSt None (leaf IPm0).
 Definition sukf_st0 : sukf_state tm tm := mkSukfSt None None.
 
-Definition run_kf (pats : list (list bool)) : list obs :=
-  gauss_run _ (fun p k => s_kf_step (inject p (smm k))) (fun _ _ st => (s_kf_get_lik st, [])) pats 0 (leaf IOutG) kf_st0.
+Definition run_kf_cfg (c : cfg) (pats : list (list bool)) : list obs :=
+  gauss_run_cfg _ (fun p k => s_kf_step (sinj c p k)) (fun _ _ st => (s_kf_get_lik st, [])) c pats 0 (leaf IOutG) kf_st0.
+Definition run_kf := run_kf_cfg cfg0.
 
-Definition run_ukf (additive : bool) (pats : list (list bool)) : list obs :=
-  gauss_run _ (fun p k => s_ukf_step additive (inject p (smm k))) (fun _ _ st => (s_ukf_get_lik st, []))
-            pats 0 (leaf IOutG) ukf_st0.
+Definition run_ukf_cfg (c : cfg) (additive : bool) (pats : list (list bool)) : list obs :=
+  gauss_run_cfg _ (fun p k => s_ukf_step additive (sinj c p k)) (fun _ _ st => (s_ukf_get_lik st, []))
+            c pats 0 (leaf IOutG) ukf_st0.
+Definition run_ukf := run_ukf_cfg cfg0.
 
-Definition run_sukf (sub_ok : bool) (ncalls lcalls : nat) (pats : list (list bool)) : list obs :=
-  gauss_run _ (fun p k => s_sukf_step sub_ok ncalls (inject p (smm k)))
-            (fun p k st => s_sukf_get_lik lcalls (inject p (smm k)) st) pats 0 (leaf IOutG) sukf_st0.
+Definition run_sukf_cfg (c : cfg) (sub_ok : bool) (ncalls lcalls : nat) (pats : list (list bool)) : list obs :=
+  gauss_run_cfg _ (fun p k => s_sukf_step sub_ok ncalls (sinj c p k))
+            (fun p k st => s_sukf_get_lik lcalls (sinj c p k) st) c pats 0 (leaf IOutG) sukf_st0.
+Definition run_sukf := run_sukf_cfg cfg0.
 
 (* GaussianLikelihood::likelihood on its own *)
-Definition run_gl (pats : list (list bool)) : list obs :=
+Definition run_gl_cfg (c : cfg) (pats : list (list bool)) : list obs :=
   let fix go pats k :=
     match pats with
     | [] => []
     | b :: rest =>
-      let '(o, l) := s_gl (inject (pat_of b) (smm k)) (leaf (IPredS k)) in
+      let '(o, l) := s_gl (sinj c (pat_of b) k) (leaf (IPredS k)) in
       mkObs (leaf IEmpty) (leaf IEmpty) l (lik_pair (leaf FZero1) o) [] :: go rest (S k)
     end in go pats 0.
+Definition run_gl := run_gl_cfg cfg0.
 
 Definition s_lm (custom : bool) (k : nat) : likmodel tm tm :=
-  if custom then LCustom (fun s => Some (ap2 FCustomLik s (leaf (IY k)))) else LGauss.
-
-Section PfRun.
-Variable GS : Type.
-Variable step : list bool -> nat -> tm * tm -> tm * tm -> GS -> result (tm * tm) GS.
-Variable getlik : GS -> bool * tm.
-
-Fixpoint pf_run (pats : list (list bool)) (k : nat) (out : tm * tm) (st : GS) : list obs :=
-  match pats with
-  | [] => []
-  | b :: rest =>
-    let r := correct_wrapper false (step b k) (leaf (IPredG k), leaf (IPredS k)) out st in
-    mkObs (fst (r_out r)) (snd (r_out r)) (r_log r) (getlik (r_st r)) [] :: pf_run rest (S k) (r_out r) (r_st r)
-  end.
-End PfRun.
-
-Definition pf_st0 : pf_state tm := mkPfSt false (leaf IEmpty).
-
-Definition run_boot (custom : bool) (pats : list (list bool)) : list obs :=
-  pf_run _ (fun b k => s_boot_step (inject_lik (pat_of b) (s_lm custom k)) (inject (pat_of b) (smm k))) pf_get_lik
-         pats 0 (leaf IOutG, leaf IOutS) pf_st0.
+  if custom then LCustom (fun s => (true, ap2 FCustomLik s (leaf (IY k)))) else LGauss.
+Definition s_inject_lik := @inject_lik tm tm (leaf FZero1).
 
 (* GPFCorrection makes its calls in two phases: the wrapped Gaussian correction,
    then the likelihood.  A 6-bit pattern applies to both; with 12 bits the second
@@ -143,21 +140,52 @@ Definition run_boot (custom : bool) (pats : list (list bool)) : list obs :=
    model object may answer differently at the later calls). *)
 Definition pat2_of (bits : list bool) : pattern := fun s => nth (6 + nat_of_site s) bits (pat_of bits s).
 
-Definition run_gpf_with (GS : Type) (gc : pattern -> nat -> tm -> tm -> GS -> result tm GS) (gs0 : GS)
-           (custom : bool) (pats : list (list bool)) : list obs :=
-  pf_run _ (fun b k => s_gpf_step GS (gc (pat_of b) k) (inject_lik (pat2_of b) (s_lm custom k)) (inject (pat2_of b) (smm k)))
-         (fun st => pf_get_lik (g_pf st)) pats 0 (leaf IOutG, leaf IOutS) (mkGpfSt pf_st0 gs0 (leaf IRng)).
+Section PfRun.
+Variable GS : Type.
+Variable step : list bool -> nat -> tm * tm -> tm * tm -> GS -> result (tm * tm) GS.
+Variable getlik : GS -> bool * tm.
 
-(* inner: 0 = KF, 1 = UKF generic, 2 = UKF additive *)
-Definition run_gpf (inner : nat) (custom : bool) (pats : list (list bool)) : list obs :=
-  match inner with
-  | 0 => run_gpf_with _ (fun p k => s_kf_step (inject p (smm k))) kf_st0 custom pats
-  | 1 => run_gpf_with _ (fun p k => s_ukf_step false (inject p (smm k))) ukf_st0 custom pats
-  | _ => run_gpf_with _ (fun p k => s_ukf_step true (inject p (smm k))) ukf_st0 custom pats
+Fixpoint pf_run_cfg (c : cfg) (pats : list (list bool)) (k : nat) (out : tm * tm) (st : GS) : list obs :=
+  match pats with
+  | [] => []
+  | b :: rest =>
+    let pred := (leaf (IPredG k), leaf (IPredS k)) in
+    let r := correct_wrapper (c_skip c) (step b k) pred (if c_alias c then pred else out) st in
+    mkObs (fst (r_out r)) (snd (r_out r)) (r_log r) (getlik (r_st r)) [] :: pf_run_cfg c rest (S k) (r_out r) (r_st r)
   end.
+End PfRun.
 
-(* SIS::filtering_step: freeze bit of the pattern; degenerate = false (the
-   harness's resampling stub reports neff = N) *)
+Definition pf_st0 : pf_state tm := mkPfSt false (leaf IEmpty).
+
+Definition run_boot_cfg (c : cfg) (custom : bool) (pats : list (list bool)) : list obs :=
+  pf_run_cfg _ (fun b k => s_boot_step (s_inject_lik (pat_of b) (s_lm custom k)) (sinj c (pat_of b) k)) pf_get_lik
+         c pats 0 (leaf IOutG, leaf IOutS) pf_st0.
+Definition run_boot := run_boot_cfg cfg0.
+
+Definition s_gpf_step_aliased (GS : Type) :=
+  @gpf_step_aliased tm tm tm tm tm tm tm tm tm (ap1 FStPx) (ap2 FGlDens) (leaf FZero1) GS s_sample s_gpf_wupd.
+
+Definition run_gpf_with (GS : Type) (gc : pattern -> nat -> tm -> tm -> GS -> result tm GS) (gs0 : GS)
+           (c : cfg) (custom : bool) (pats : list (list bool)) : list obs :=
+  pf_run_cfg _ (fun b k pred out st =>
+                  let gcw := correct_wrapper (c_iskip c) (gc (pat_of b) k) in
+                  let lm := s_inject_lik (pat2_of b) (s_lm custom k) in
+                  let mm := sinj c (pat2_of b) k in
+                  if c_alias c then s_gpf_step_aliased GS gcw lm mm pred st
+                  else s_gpf_step GS gcw lm mm pred out st)
+         (fun st => pf_get_lik (g_pf st)) c pats 0 (leaf IOutG, leaf IOutS) (mkGpfSt pf_st0 gs0 (leaf IRng)).
+
+(* inner: 0 = KF, 1 = UKF generic, 2 = UKF additive, 3 = SUKF *)
+Definition run_gpf_cfg (c : cfg) (inner : nat) (sub_ok : bool) (ncalls : nat) (custom : bool) (pats : list (list bool)) : list obs :=
+  match inner with
+  | 0 => run_gpf_with _ (fun p k => s_kf_step (sinj c p k)) kf_st0 c custom pats
+  | 1 => run_gpf_with _ (fun p k => s_ukf_step false (sinj c p k)) ukf_st0 c custom pats
+  | 2 => run_gpf_with _ (fun p k => s_ukf_step true (sinj c p k)) ukf_st0 c custom pats
+  | _ => run_gpf_with _ (fun p k => s_sukf_step sub_ok ncalls (sinj c p k)) sukf_st0 c custom pats
+  end.
+Definition run_gpf (inner : nat) (custom : bool) := run_gpf_cfg cfg0 inner true 0 custom.
+
+(* SIS::filtering_step, one call (step 0, no resampling): kept for the examples *)
 Definition pr2 (cg cs : con) (a b : tm * tm) : tm * tm :=
   (Node cg [fst a; snd a; fst b; snd b], Node cs [fst a; snd a; fst b; snd b]).
 Definition pr1 (cg cs : con) (a : tm * tm) : tm * tm := (Node cg [fst a; snd a], Node cs [fst a; snd a]).
@@ -167,6 +195,34 @@ Definition s_sis_step := @sis_step tm tm (pr2 FSisPredG FSisPredS) (pr2 FSisCorG
 
 Definition run_sis (bits : list bool) (step : nat) : (tm * tm) * (tm * tm) * list sis_event :=
   s_sis_step (mm_freeze (inject (pat_of bits) (smm 0))) step ((leaf (IPredG 0), leaf (IPredS 0)), (leaf IOutG, leaf IOutS)).
+
+(* SIS driven through several filtering steps with a BootstrapCorrection over the
+   GaussianLikelihood as correction: per step the pattern and whether the
+   resampling test fires (an input: it depends on the numerical weights).
+   Events: the filter's own (predict, freeze, correct, normalise, resample) with the
+   measurement-model calls of the correction after EvCorrect. *)
+Record sis_obs := mkSisObs { so_pred : tm * tm; so_cor_at_log : tm * tm; so_cor : tm * tm;
+                             so_events : list (sis_event + site) }.
+
+Fixpoint sis_run (steps : list (list bool * bool)) (k : nat) (pc : (tm * tm) * (tm * tm)) : list sis_obs :=
+  match steps with
+  | [] => []
+  | (b, deg) :: rest =>
+    let p := pat_of b in
+    let mm := inject p (smm k) in
+    let correct := fun pred cor => r_out (s_boot_step LGauss mm pred cor pf_st0) in
+    let '(pred, cor, evs) :=
+      @sis_step tm tm (pr2 FSisPredG FSisPredS) correct (pr1 FSisNormG FSisNormS) (fun _ => deg)
+                (pr1 FSisResG FSisResS) (mm_freeze mm) k pc in
+    let at_log := @sis_cor_at_log tm tm (pr2 FSisPredG FSisPredS) correct (pr1 FSisNormG FSisNormS) (mm_freeze mm) k pc in
+    let clog := r_log (s_boot_step LGauss mm pred (snd pc) pf_st0) in
+    let evs' := flat_map (fun e => match e with
+                                   | EvCorrect => inl EvCorrect :: map inr clog
+                                   | _ => [inl e] end) evs in
+    mkSisObs pred at_log cor evs' :: sis_run rest (S k) (pred, cor)
+  end.
+Definition run_sis_seq (steps : list (list bool * bool)) : list sis_obs :=
+  sis_run steps 0 ((leaf (IPredG 0), leaf (IPredS 0)), (leaf IOutG, leaf IOutS)).
 
 (* term equality, for the examples *)
 Definition con_code (c : con) : nat * nat :=
@@ -182,6 +238,7 @@ Definition con_code (c : con) : nat * nat :=
   | FSampleRng => (36, 0) | FGpfW => (37, 0)
   | FSisPredG => (38, 0) | FSisPredS => (39, 0) | FSisCorG => (40, 0) | FSisCorS => (41, 0)
   | FSisNormG => (42, 0) | FSisNormS => (43, 0) | FSisResG => (44, 0) | FSisResS => (45, 0)
+  | IGarbageR => (46, 0)
   end.
 Definition con_eqb (a b : con) : bool :=
   Nat.eqb (fst (con_code a)) (fst (con_code b)) && Nat.eqb (snd (con_code a)) (snd (con_code b)).
